@@ -3,6 +3,8 @@ package checks
 import (
 	"bytes"
 	"crypto/x509"
+	"crypto/x509/pkix"
+	"encoding/asn1"
 	"encoding/hex"
 	"encoding/json"
 	"fmt"
@@ -122,6 +124,11 @@ func runC03(r *mc.Run) {
 
 	// (b) Engine A menu
 	tcbByInter := world.MakeCert(world.CertSpec{CN: world.CNTcb, Key: world.NewKey("T/tcb-by-inter")}, w.PKI.Inter, w.PKI.InterKey)
+	twoCN := func() *x509.Certificate {
+		n := world.IntelName("")
+		n.ExtraNames = []pkix.AttributeTypeAndValue{{Type: asn1.ObjectIdentifier{2, 5, 4, 3}, Value: world.CNTcb}, {Type: asn1.ObjectIdentifier{2, 5, 4, 3}, Value: "Intel SGX Attestation Report Signing"}}
+		return world.MakeCert(world.CertSpec{CN: "two-cn", Name: &n, Key: world.NewKey("T/other-role-signer")}, w.PKI.Root, w.PKI.RootKey)
+	}
 	fRoot := func(nbDays, naDays int) *x509.Certificate {
 		return world.MakeCert(world.CertSpec{CN: world.CNRoot, IsCA: true, Key: F.RootKey, MaxPathLen: 1, NotBefore: world.T0.AddDate(0, 0, nbDays), NotAfter: world.T0.AddDate(0, 0, naDays)}, nil, F.RootKey)
 	}
@@ -170,6 +177,7 @@ func runC03(r *mc.Run) {
 		{"[tcb-double-space,root]", []*x509.Certificate{nameVariant("Intel SGX  TCB Signing"), w.PKI.Root}},
 		{"[tcb-leading-space,root]", []*x509.Certificate{nameVariant(" Intel SGX TCB Signing"), w.PKI.Root}},
 		{"[tcb-suffix,root]", []*x509.Certificate{nameVariant("Intel SGX TCB Signing CA"), w.PKI.Root}},
+		{"[two-cn:tcb-then-other,root]", []*x509.Certificate{twoCN(), w.PKI.Root}},
 		// the genuine signer key and name, but certified by the root for an unrelated purpose only
 		{"[tcb-eku-code-signing,root]", []*x509.Certificate{world.MakeCert(world.CertSpec{CN: world.CNTcb, Key: w.PKI.TcbKey, ExtKeyUsage: []x509.ExtKeyUsage{x509.ExtKeyUsageCodeSigning}}, w.PKI.Root, w.PKI.RootKey), w.PKI.Root}},
 	}
@@ -183,7 +191,7 @@ func runC03(r *mc.Run) {
 		signer := c.Choose("signer", len(signers))
 		chain := c.Choose("chain", len(chains))
 		sigOver := c.Choose("sigover", 5)
-		reenc := c.Choose("reencode", 5)
+		reenc := c.Choose("reencode", 12)
 		idv := c.Choose("idversion", 8)
 		lev := c.Choose("levels", 3)
 		memb := c.Choose("member", 5)
@@ -249,6 +257,24 @@ func runC03(r *mc.Run) {
 			around = true // white space around the member value: not part of the signed bytes
 		case 4:
 			sent = bytes.Replace(raw, []byte(`"id":`), []byte(`"id" :`), 1)
+		case 5: // every kind of JSON white space, between tokens, at several places (a normalisation before the
+			// signature check accepts exactly the kinds it strips)
+			sent = bytes.ReplaceAll(raw, []byte(`,"`), []byte(",\n\""))
+		case 6:
+			sent = bytes.ReplaceAll(raw, []byte(`,"`), []byte(",\r\n\""))
+		case 7:
+			sent = bytes.ReplaceAll(raw, []byte(`,"`), []byte(",\r\""))
+		case 8:
+			sent = bytes.ReplaceAll(raw, []byte(`,"`), []byte(",\t\""))
+		case 9: // one line break before the closing brace only
+			sent = append(append([]byte(nil), raw[:len(raw)-1]...), '\n', '}')
+		case 10: // leading white space inside the member
+			sent = append([]byte("{\n"), raw[1:]...)
+		case 11: // pretty-printed
+			var b bytes.Buffer
+			if json.Indent(&b, raw, "", "  ") == nil {
+				sent = b.Bytes()
+			}
 		}
 		var body []byte
 		memberJSON := string(sent)
